@@ -96,7 +96,9 @@ def kernel_rules(prog, rep, rid_prefix="C18"):
             wantdom = ("phi", ("un", "not", ("call", ("g", "isinstance"), (key, ("g", "str")), ())),
                        ("call", ("g", "list"), (key,), ()),
                        ("call", ("g", "list"), (("call", ("g", "map"), (("g", "ord"), key), ()),), ()))
-            if canon(dom) != canon(wantdom):
+            isstr = [c for c in p.conds if strip_epochs(c.atom) == ("call", ("g", "isinstance"), (key, ("g", "str")), ())]
+            stmt_form = isstr and ((isstr[0].truth and canon(dom) == canon(wantdom[3])) or (not isstr[0].truth and canon(dom) == canon(wantdom[2])))
+            if canon(dom) != canon(wantdom) and not stmt_form:
                 rep.bad(f"{rid_prefix}.text-keys", name, f"iterates {nshow(dom)}", "the key is not consumed as its bytes / code points (list(key) for bytes, map(ord, key) for str)", f.where())
                 good = False
                 break
@@ -283,7 +285,9 @@ def check(prog, rep, tier):
             okt = (inl[0], f"the digest input is {nshow(arg0)}, not the running value")
             break
         init = [e for e in pre if e.name == arg0[1]]
-        if not init or canon(init[-1].value) != canon(want):
+        isstr = [c for c in p.conds if strip_epochs(c.atom) == ("call", ("g", "isinstance"), (key, ("g", "str")), ())]
+        stmt_form = bool(init) and bool(isstr) and ((isstr[0].truth and canon(init[-1].value) == canon(want[3])) or (not isstr[0].truth and canon(init[-1].value) == canon(want[2])))
+        if not stmt_form and (not init or canon(init[-1].value) != canon(want)):
             okt = (inl[0], f"the first digest is taken over {nshow(init[-1].value) if init else '?'}, not over the key's UTF-8 bytes")
             break
         nxt = [e for e in p.events if e.kind == "bind" and e.loops and e.name == arg0[1]]
